@@ -19,7 +19,7 @@ def dispatchAll (st : Full) (line : String) : Full × String :=
   else if verb.startsWith "cli." then
     let (c', r) := cliDispatch st.cli verb head payload
     ({ st with cli := c' }, r)
-  else if verb.startsWith "ws." || verb.startsWith "wl." || verb.startsWith "slot." then
+  else if verb.startsWith "ws." || verb.startsWith "wl." || verb.startsWith "slot." || verb == "cfg.wsrequest" then
     (st, drvDispatch verb head)
   else if verb.startsWith "aws." then
     (st, awsDispatch verb head payload)
